@@ -472,6 +472,7 @@ class Gen:
     def simple(self, text, crit):
         ctx = self.ctx; t = text.strip()
         if not t: return None
+        if re.fullmatch(r"OM_VERIF_\w+\s*\(.*\)", t, re.S): return None      # hook marker (add-only instrumentation)
         m = re.fullmatch(r"\+\+\s*(%s)" % ID, t)
         if m:
             if m.group(1) == "pb" or m.group(1).startswith("pb"):
